@@ -267,6 +267,9 @@ def feature_matrix_spec():
     paths["/shared/out"] = {"get": {"operationId": "shared_out", "responses": {"200": {"description": "ok", "content": {"application/json": {"schema": R("SharedOutBag")}}}}}}
     paths["/shared2/out"] = {"get": {"operationId": "shared2_out", "responses": {"200": {"description": "ok", "content": {"application/json": {"schema": R("Shared2Leaf")}}}}}}
     paths["/shared2/in"] = {"post": {"operationId": "shared2_in", "requestBody": {"required": True, "content": {"application/json": {"schema": R("Shared2InBag")}}}, "responses": {"204": {"description": "n"}}}}
+    # unions whose variants are containers of a struct (helper constructors are generated for struct variants)
+    paths["/either"] = {"post": {"operationId": "post_either", "requestBody": {"required": True, "content": {"application/json": {"schema": R("EitherItems")}}},
+                                 "responses": {"200": {"description": "ok", "content": {"application/json": {"schema": R("EitherItems")}}}}}}
     mapbag = lambda leaf, leaf2: {"type": "object", "properties": {     # reached ONLY through map values
         "by_key": {"type": "object", "additionalProperties": R(leaf)},
         "lists": {"type": "object", "additionalProperties": {"type": "array", "items": R(leaf2)}}}}
@@ -279,6 +282,10 @@ def feature_matrix_spec():
                                                                                              "sub": {"$ref": "#/components/schemas/Sub"}}},
                                        "Sub": {"type": "object", "properties": {"k": {"type": "string", "enum": ["a", "b"]}}},
                                        "OutBag": bag("OutLeaf", "OutKind"), "InBag": bag("InLeaf", "InKind"),
+                                       "EitherItems": {"oneOf": [R("Shared2Leaf"), {"type": "array", "items": R("Shared2Leaf")}, {"type": "object", "additionalProperties": R("SharedLeaf")},
+                                                                 {"type": "array", "items": {"type": "array", "items": R("SharedLeaf")}}]},
+                                       "EitherHolder": {"type": "object", "properties": {"one": {"anyOf": [R("SharedLeaf"), {"type": "array", "items": R("SharedLeaf")}]},
+                                                                                          "two": {"oneOf": [R("SharedKind"), {"type": "array", "items": R("SharedKind")}, {"type": "null"}]}}},
                                        "SharedOutBag": mapbag("SharedLeaf", "SharedKind"), "Shared2InBag": mapbag("Shared2Leaf", "SharedKind"),
                                        "SharedLeaf": {"type": "object", "properties": {"s": {"type": "string"}}}, "SharedKind": {"type": "string", "enum": ["k1", "k2"]},
                                        "Shared2Leaf": {"type": "object", "properties": {"t": {"type": "string"}}},
